@@ -439,6 +439,12 @@ def r2_explicit(program, rep):
         if (mk_cmp("LtE", LEN, ("const", 0)), True) in f and \
                 (is_none(LEN), False) in f:
             okz = True
+    if not okz:
+        # ... or, whichever function makes the test: where the field is
+        # recorded with a length given, that length is known to be positive
+        f2 = T.under((is_none(LEN), False)).all_facts(rn)
+        okz = (mk_cmp("Lt", ("const", 0), LEN), True) in f2 or \
+            (mk_cmp("LtE", ("const", 1), LEN), True) in f2
     rep.check(okz, "C08-R2", inst, "a given length <= 0 is rejected",
               construct="length guard", node=fn)
     # the overlap scan (in the function or in a helper it calls)
@@ -611,6 +617,30 @@ def r3_masks(program, rep):
             acc = other[2][:1] == (cur,)
             place_nodes.append(b_.node)
             continue
+        comp_ = other[1][2] if other[0] == "elem" and \
+            other[1][0] == "new" else other[1] if other[0] == "elem" else None
+        if comp_ is not None and comp_[0] in ("listcomp", "genexp") and \
+                len(comp_[2]) == 1 and lp is not None:
+            # the masks were collected by a comprehension first and are
+            # or-ed in one by one: read the comprehension
+            elt, (it_, conds_) = comp_[1], comp_[2][0]
+            mf = _mask_form(fl, elt)
+            if mf is not None:
+                seen_mask = True
+                scan_loops.append(lp)
+                F = [st for st in subterms(elt) if st[0] == "attr" and
+                     st[2] == "length"]
+                ok = bool(F) and mf[0] == _poly(fl, F[0]) and \
+                    mf[1] == _poly(fl, ("attr", F[0][1], "start_at"))
+                it = plain(it_)
+                dom_ok = it[0] == "call" and it[1] == (
+                    "attr", ("attr", SELF, "fields"), "potential_fields") \
+                    and it[2] == (("param", ps[2]),)
+                from ..terms import split_cond as _split
+                f = [x for c_ in conds_ for x in _split(c_, True)]
+                ok = ok and (is_none(F[0]), False) in f and \
+                    (is_none(("attr", F[0][1], "start_at")), False) in f
+                continue
         mf = _mask_form(fl, other)
         if mf is not None and lp is not None:
             seen_mask = True
@@ -620,6 +650,10 @@ def r3_masks(program, rep):
             ok = bool(F) and mf[0] == _poly(fl, F[0]) and \
                 mf[1] == _poly(fl, ("attr", F[0][1], "start_at"))
             it = plain(T.term(lp.iter, T.cfg.loop_head[id(lp)]))
+            if it[0] in ("listcomp", "genexp") and len(it[2]) == 1:
+                # a loop over masks collected by a comprehension ranges
+                # over what the comprehension ranges over
+                it = it[2][0][0]
             dom_ok = it[0] == "call" and it[1] == (
                 "attr", ("attr", SELF, "fields"), "potential_fields") and \
                 it[2] == (("param", ps[2]),)
